@@ -4,7 +4,8 @@
 //	clock <ms>
 //	tick <ms>
 //	load <n> <rule>*n      hotspot.LoadRules on the module as it is (the first load of a case finds it empty); rule = res=..,cb=..,idx=..,key=..,T=..,burst=..,D=..,mq=..,cap=..,items=<-|val@int;…>
-//	entry <res> <batch> <nargs> <val>* <natt> <key=val>*
+//	onsleep <n> <rule>*n   arm: LoadRules(these) runs from inside the clock's Sleep of the next queued request
+//	entry <res> <batch> <nargs> <val|+>* <natt> <key=val>*   (`+` starts another WithArgs option)
 //	sweep <res> <batch> <prefix> <lo> <hi>   one entry per k in [lo,hi) with the single argument <prefix>k; run-length encoded results
 //
 // A value is `v:<kind>:<text>`: i int, l int64, s string, b bool, f float64 bits, t struct{A int;B string}, n nil.
@@ -16,6 +17,7 @@ import (
 	"runtime"
 	"strconv"
 	"strings"
+	"time"
 
 	sentinel "github.com/alibaba/sentinel-golang/api"
 	"github.com/alibaba/sentinel-golang/core/base"
@@ -37,8 +39,19 @@ type pair struct {
 // finish in their first iteration). The panic is recovered by SlotChain.Entry; the interpreter reports `spin`.
 type spinClock struct {
 	*vh.Clock
-	reads int
-	spun  bool
+	reads   int
+	spun    bool
+	onSleep func() // what another goroutine does while the request is parked in util.Sleep (armed by `onsleep`)
+}
+
+// Sleep records the request, advances the virtual time and then runs the armed action, as a goroutine scheduled
+// during the sleep would.
+func (c *spinClock) Sleep(d time.Duration) {
+	c.Clock.Sleep(d)
+	if f := c.onSleep; f != nil {
+		c.onSleep = nil
+		f()
+	}
 }
 
 const spinLimit = 1000
@@ -57,6 +70,7 @@ type Interp struct {
 	clk    *spinClock
 	labels map[*hotspot.Rule]int // every rule object loaded in this case -> generation*1000 + position
 	gen    int
+	fired  int // rules in force after the armed reload ran during the current entry, -1 if it did not run
 }
 
 func New() vh.Interp {
@@ -73,6 +87,7 @@ func (it *Interp) Reset() {
 	stat.ResetResourceNodeMap()
 	it.labels = map[*hotspot.Rule]int{}
 	it.gen = 0
+	it.clk.onSleep = nil
 	it.clk.Sleeps = nil
 }
 
@@ -160,17 +175,37 @@ func rule(s string) *hotspot.Rule {
 	return r
 }
 
+// load performs hotspot.LoadRules with fresh rule objects ("-" = nil rule) and returns the number of rules in force.
+func (it *Interp) load(specs []string) int {
+	var rules []*hotspot.Rule
+	for i, s := range specs {
+		if s == "-" {
+			rules = append(rules, nil)
+			continue
+		}
+		r := rule(s)
+		it.labels[r] = it.gen*1000 + i
+		rules = append(rules, r)
+	}
+	it.gen++
+	if _, err := hotspot.LoadRules(rules); err != nil {
+		return -1
+	}
+	return len(hotspot.GetRules())
+}
+
 // entry performs one api.Entry and renders the decision, the triggering rule and the requested sleeps.
-func (it *Interp) entry(res string, batch uint32, args []interface{}, atts map[interface{}]interface{}) string {
+func (it *Interp) entry(res string, batch uint32, args [][]interface{}, atts map[interface{}]interface{}) string {
 	opts := []sentinel.EntryOption{sentinel.WithBatchCount(batch)}
-	if len(args) > 0 {
-		opts = append(opts, sentinel.WithArgs(args...))
+	for _, g := range args {
+		opts = append(opts, sentinel.WithArgs(g...))
 	}
 	if len(atts) > 0 {
 		opts = append(opts, sentinel.WithAttachments(atts))
 	}
 	it.clk.Sleeps = it.clk.Sleeps[:0]
 	it.clk.reads, it.clk.spun = 0, false
+	it.fired = -1
 	e, b := sentinel.Entry(res, opts...)
 	out := "pass"
 	if it.clk.spun {
@@ -200,6 +235,9 @@ func (it *Interp) entry(res string, batch uint32, args []interface{}, atts map[i
 		}
 		out += " w:" + strings.Join(xs, ",")
 	}
+	if it.fired >= 0 {
+		out += fmt.Sprintf(" reload:%d", it.fired)
+	}
 	return out
 }
 
@@ -218,24 +256,38 @@ func (it *Interp) Step(t []string, op string) string {
 		}
 		// a plain (re)load: controllers and statistics of the previous generation are reused as the rule manager
 		// decides; a reused controller keeps its old rule object, hence the labels by generation
-		var rules []*hotspot.Rule
-		for i, s := range t[2:] {
-			r := rule(s)
-			it.labels[r] = it.gen*1000 + i
-			rules = append(rules, r)
-		}
-		it.gen++
-		if _, err := hotspot.LoadRules(rules); err != nil {
+		k := it.load(t[2:])
+		if k < 0 {
 			return "err"
 		}
-		return fmt.Sprint(len(hotspot.GetRules()))
+		return fmt.Sprint(k)
+	case "onsleep":
+		n := int(vh.U(t[1]))
+		if len(t) != 2+n {
+			panic("bad onsleep")
+		}
+		specs := append([]string(nil), t[2:]...)
+		it.clk.onSleep = func() { it.fired = it.load(specs) }
+		return ""
 	case "entry":
 		res := t[1]
 		batch := uint32(vh.U(t[2]))
 		na := int(vh.U(t[3]))
-		args := make([]interface{}, 0, na)
+		// `+` starts another WithArgs option; without any value no WithArgs option is given at all
+		var args [][]interface{}
+		cur := []interface{}{}
+		seen := false
 		for _, s := range t[4 : 4+na] {
-			args = append(args, val(s))
+			if s == "+" {
+				args = append(args, cur)
+				cur = []interface{}{}
+				seen = true
+				continue
+			}
+			cur = append(cur, val(s))
+		}
+		if len(cur) > 0 || seen {
+			args = append(args, cur)
 		}
 		nt := int(vh.U(t[4+na]))
 		rest := t[5+na:]
@@ -258,7 +310,7 @@ func (it *Interp) Step(t []string, op string) string {
 		var groups []string
 		last, n := "", 0
 		for k := lo; k < hi; k++ {
-			r := it.entry(res, batch, []interface{}{val(t[3] + strconv.FormatUint(k, 10))}, nil)
+			r := it.entry(res, batch, [][]interface{}{{val(t[3] + strconv.FormatUint(k, 10))}}, nil)
 			if r == last {
 				n++
 				continue
